@@ -492,6 +492,41 @@ func genHist(r *vh.Rand, big bool) hist {
 	return h
 }
 
+// targeted: a round finalized with deletes, rolled back, finalized again by a block that changes
+// nothing (or something else), then pruned above that round.
+func targeted(r *vh.Rand, variant int) hist {
+	count := r.Range(2, 5)
+	h := hist{Start: 93 + r.Intn(4), Count: count}
+	ins := func(ks ...int) step {
+		st := step{Kind: "block"}
+		for _, k := range ks {
+			st.Ops = append(st.Ops, op{K: k, V: "a"})
+		}
+		return st
+	}
+	h.Steps = append(h.Steps, ins(1, 2, 3), ins(4, 5), ins(6))
+	// X: deletes/updates nodes of the common ancestor's state
+	x := step{Kind: "block", Ops: []op{{K: 1}, {K: 4, V: "b"}}}
+	h.Steps = append(h.Steps, x)
+	if variant%2 == 1 {
+		h.Steps = append(h.Steps, step{Kind: "block", Ops: []op{{K: 2}}})
+		h.Steps = append(h.Steps, step{Kind: "rollback", Back: 2})
+	} else {
+		h.Steps = append(h.Steps, step{Kind: "rollback", Back: 1})
+	}
+	// Y: the winning fork changes nothing in that round (variant 2,3: something else)
+	if variant >= 2 {
+		h.Steps = append(h.Steps, step{Kind: "block", Ops: []op{{K: 9, V: "c"}}})
+	} else {
+		h.Steps = append(h.Steps, step{Kind: "block"})
+	}
+	for i := 0; i < 12+count; i++ {
+		h.Steps = append(h.Steps, step{Kind: "block", Ops: []op{{K: 10 + r.Intn(4), V: "a"}}})
+	}
+	h.Steps = append(h.Steps, step{Kind: "prune"})
+	return h
+}
+
 func key(h hist) string { return fmt.Sprintf("%v", h) }
 
 func main() {
@@ -550,7 +585,10 @@ func main() {
 		handle(rh, true)
 	} else {
 		rnd := vh.NewRand(o.Seed)
-		for i := 0; i < o.N(40, 300); i++ {
+		for v := 0; v < 4; v++ {
+			handle(targeted(rnd, v), true)
+		}
+		for i := 0; i < o.N(36, 300); i++ {
 			handle(genHist(rnd, false), true)
 		}
 		for i := 0; i < o.N(8, 100); i++ {
